@@ -541,10 +541,7 @@ class WriterThread(threading.Thread):
             saved_id = event.id_bytes
             event.created_at - 1
             if event.is_paramaterized_replaceable:
-                try:
-                    d_tag = [tag[1] for tag in event.tags if tag[0] == "d"][0]
-                except IndexError:
-                    d_tag = None
+                d_tag = get_d_tag(event)
             else:
                 d_tag = None
 
@@ -558,9 +555,10 @@ class WriterThread(threading.Thread):
                     if event_id == saved_id:
                         continue
                     candidate = decode_event(get_event_data(txn, event_id))
-                    if d_tag is not None:
-                        if not all(candidate.has_tag("d", d_tag)):
-                            continue
+                    if candidate is None:
+                        continue
+                    if d_tag is not None and get_d_tag(candidate) != d_tag:
+                        continue
                     self._delete_event(txn, candidate, log)
                     counter["count"] += 1
 
@@ -1197,6 +1195,17 @@ def get_event_data(txn, event_id: bytes):
         return unpackb(txn.get(b"\x00" + event_id), use_list=False)
     except TypeError:
         return None
+
+
+def get_d_tag(event: Event) -> str:
+    """
+    Return the value of the first "d" tag (NIP-33).
+    A missing tag, ["d"] and ["d", ""] all mean the empty value
+    """
+    for tag in event.tags:
+        if tag[0] == "d":
+            return tag[1] if len(tag) > 1 else ""
+    return ""
 
 
 def bytes_from_hex(hexstr: str) -> bytes:
